@@ -39,8 +39,8 @@ ASSUMPTIONS = [
     "tolerance 1e-6 (1e-5 grid-structured kernels, 1e-4 CIQ); no byte-level corruption of torch/pickle formats is injected",
 ]
 EXPECTED_PROBES = {
-    "quick": ["restored_state_dict", "restored_pickle", "restored_deepcopy", "dirty_target", "lockstep_observation", "rollback_compared", "crash_in_eval_with_caches", "crash_in_training"],
-    "thorough": ["restored_state_dict", "restored_pickle", "restored_deepcopy", "dirty_target", "lockstep_observation", "rollback_compared", "crash_in_eval_with_caches", "crash_in_training"],
+    "quick": ["restored_state_dict", "restored_pickle", "restored_deepcopy", "dirty_target", "lockstep_observation", "rollback_compared", "crash_in_eval_with_caches", "crash_in_training", "copy_independence_checked"],
+    "thorough": ["restored_state_dict", "restored_pickle", "restored_deepcopy", "dirty_target", "lockstep_observation", "rollback_compared", "crash_in_eval_with_caches", "crash_in_training", "copy_independence_checked"],
 }
 EXACT_FAMS = ["default", "default", "kissgp", "sgpr", "rff", "multitask", "hadamard", "grid"]
 OPS_EXACT = {"predict": 5.0, "train": 0.7, "eval": 0.7, "train_steps": 1.5, "set_train_data": 1.0, "perturb": 0.8, "backward": 0.5, "prior_predict": 0.5, "objective": 0.8, "train_call": 0.4, "fantasize": 0.3}
@@ -238,6 +238,7 @@ def restore(out, i, src_live, op, recipe, tol, phase):
         if driver.module_modes(src) != driver.module_modes(new):
             diff = [n for (n, a), (_, b) in zip(driver.module_modes(src), driver.module_modes(new)) if a != b]
             out.violate("mode_not_carried", i, "%s changed the training flag of submodules %s" % (how, diff[:4]), **cls)
+        independence_check(out, i, src_live, how, op, recipe, tol, cls)
         ea, eb = extra_state(src), extra_state(new)
         for k in sorted(set(ea) | set(eb)):
             if k not in ea or k not in eb or ea[k].shape != eb[k].shape or not torch.equal(torch.nan_to_num(ea[k]), torch.nan_to_num(eb[k])):
@@ -290,6 +291,59 @@ def restore(out, i, src_live, op, recipe, tol, phase):
     driver.set_mode(restored, src.training)
     out.stats["probe:restored_state_dict"] += 1
     return restored
+
+
+def independence_check(out, i, src_live, how, op, recipe, tol, cls):
+    """A copy is self-contained: O = copy(src), C = copy(O); C's eval-mode prediction must not change when O is modified
+    afterwards (parameters moved in training mode).  Uses throw-away objects, so A and B are not disturbed."""
+    try:
+        if how == "pickle":
+            O = pickle.loads(pickle.dumps(src_live.model, protocol=op["proto"]))
+            Cm = pickle.loads(pickle.dumps(O, protocol=op["proto"]))
+        else:
+            O = copy.deepcopy(src_live.model)
+            Cm = copy.deepcopy(O)
+    except Exception:  # noqa  (the mechanism's own failures are judged by the caller)
+        return
+    lo = driver.Live(recipe, model=O)
+    lc = driver.Live(recipe, model=Cm)
+    if src_live.is_var:
+        lo.x, lo.y = src_live.x, src_live.y
+        lc.x, lc.y = src_live.x, src_live.y
+    scratch = core.Outcome()
+    # the original of the copy must have test-time caches for the copy to (wrongly) keep referring to: predict with both
+    probe = {"op": "predict", "seed": op["init_seed"] + 5, "t": 3, "bundle": [], "grad": False}
+    try:
+        driver.apply(lo, probe, scratch)
+        Cm2 = pickle.loads(pickle.dumps(O, protocol=op["proto"])) if how == "pickle" else copy.deepcopy(O)
+        lc = driver.Live(recipe, model=Cm2)
+        if src_live.is_var:
+            lc.x, lc.y = src_live.x, src_live.y
+        s0, o0 = driver.apply(lc, probe, scratch)
+        # modify the copy's original (documented way: in training mode), without touching the copy
+        driver.set_mode(lo, True)
+        zoo.randomise_parameters(O, op["init_seed"] + 6, scale=0.7)
+        driver.set_mode(lo, False)
+        s1, o1 = driver.apply(lc, probe, scratch)
+    except Exception as e:  # noqa
+        out.stats["probe:independence_check_unavailable_" + type(e).__name__] += 1
+        return
+    out.stats["probe:copy_independence_checked"] += 1
+    out.stats["oracle_comparisons"] += 1
+    if s0 == "ok" and s1 == "ok":
+        bad, mx = compare.compare_obs(o0, o1, tol)
+        if bad:
+            out.violate(
+                "copy_not_independent",
+                i,
+                "%s copy: its prediction changed by %.3g (%s) after only the object it was copied from was modified" % (how, bad[0][1], bad[0][0]),
+                quantity=bad[0][0],
+                **cls,
+            )
+    # and the other direction: parameters / buffers are not shared objects
+    shared = [n for (n, p), (_, q) in zip(sorted(O.state_dict(keep_vars=True).items()), sorted(Cm2.state_dict(keep_vars=True).items())) if p is q or (p.numel() > 0 and p.data_ptr() == q.data_ptr())]
+    if shared:
+        out.violate("copy_not_independent", i, "%s copy shares storage with its original: %s" % (how, shared[:3]), quantity="storage", **cls)
 
 
 def family_label(recipe):
